@@ -1,1 +1,45 @@
-fn main(){ println!("{}", lexpr::from_str("(a . 1)").unwrap()); }
+//! vh: replayer / recorder binding the TLA+ specification to the lexpr crates built from /repo.
+//!
+//! usage: vh <command> <config.json> <out.json> [<trace.ndjson>]
+//! The config and result formats are per command; a "trace" array in the result is written to
+//! the ndjson trace file (one event per line) for TLC trace validation.
+
+mod codec;
+mod gen;
+mod c07;
+
+use serde_json::Value as J;
+use std::io::Write;
+
+fn main() {
+    // a panic in the code under test is data (caught where it matters); keep stderr quiet
+    std::panic::set_hook(Box::new(|_| {}));
+    let args: Vec<String> = std::env::args().collect();
+    if args.len() < 4 {
+        eprintln!("usage: vh <command> <config.json> <out.json> [<trace.ndjson>]");
+        std::process::exit(2);
+    }
+    let cfg: J = serde_json::from_str(&std::fs::read_to_string(&args[2]).expect("read config")).expect("config json");
+    let mut out = match args[1].as_str() {
+        "c07" => c07::run(&cfg),
+        "c07-replay" => c07::replay_case(&cfg),
+        x => {
+            eprintln!("unknown command {}", x);
+            std::process::exit(2);
+        }
+    };
+    if let Some(tp) = args.get(4) {
+        let mut f = std::io::BufWriter::new(std::fs::File::create(tp).expect("trace file"));
+        if let Some(tr) = out.get_mut("trace").map(|t| t.take()) {
+            if let Some(a) = tr.as_array() {
+                for ev in a {
+                    serde_json::to_writer(&mut f, ev).unwrap();
+                    f.write_all(b"\n").unwrap();
+                }
+                out["trace_events"] = J::from(a.len());
+            }
+        }
+        f.flush().unwrap();
+    }
+    std::fs::write(&args[3], serde_json::to_vec(&out).unwrap()).expect("write out");
+}
